@@ -54,7 +54,7 @@ def main():
     na = [{"property_id": p, "reason": NOT_BUILT_REASON} for p in props if p not in claimed]
     m = {
         "version": 1,
-        "setup_cmd": "cd /verif/harness && CARGO_NET_OFFLINE=true cargo build --release --bins",
+        "setup_cmd": "cd /verif/harness && CARGO_NET_OFFLINE=true cargo build --release " + " ".join(f"--bin {c.lower()}" for c in sorted(claimed)),
         "hooks": {
             "guard": "--cfg serde_saphyr_verif (unused: no source hooks were needed)",
             "enable": "none: every observation goes through the public API; checks build /repo as a path dependency of /verif/harness",
